@@ -26,6 +26,8 @@ type PoolCase struct {
 	Policy     string `json:"policy,omitempty"` // first | last | random
 	PSeed      uint64 `json:"pseed,omitempty"`
 	SleepUs    int    `json:"sleep_us,omitempty"`
+	LateTasks  int    `json:"late_tasks,omitempty"` // gated: tasks submitted by a second goroutine while the waiter is already inside Wait (its own tasks still parked); they are released first
+	DwellMs    int    `json:"dwell_ms,omitempty"` // gated: wait this long at the first two quiescent points with a blocked submitter
 	Lean       bool   `json:"lean,omitempty"` // tasks only do plain (non-atomic) writes; no harness synchronisation
 }
 
@@ -51,6 +53,9 @@ type PoolObs struct {
 	TasksRun     int      `json:"tasks_run"`
 	SubmitBlocks int      `json:"submit_blocked_points"` // quiescent points at which a submitter was blocked in Submit
 }
+
+// plainDone reads a task's end stamp (written inside the task before it returns; read at quiescent points only).
+func plainDone(endSeq []int64, id int) int64 { return atomic.LoadInt64(&endSeq[id]) }
 
 func effWorkers(w int) int {
 	if w <= 0 {
@@ -101,7 +106,11 @@ func runPoolCase(cs *PoolCase) *PoolObs {
 		rounds = 1
 	}
 	for round := 0; round < rounds; round++ {
-		n := cs.Tasks
+		pre := cs.Tasks // submitted before Wait
+		n := cs.Tasks + cs.LateTasks
+		lateGo := make(chan struct{})
+		lateDone := make(chan struct{})
+		lateStarted := false
 		counts := make([]int32, n)
 		plain := make([]int, n) // written non-atomically by the tasks, read by the waiter after Wait
 		endSeq := make([]int64, n)
@@ -137,7 +146,7 @@ func runPoolCase(cs *PoolCase) *PoolObs {
 					time.Sleep(time.Duration(d) * time.Microsecond)
 				}
 				plain[id] = id + 1
-				endSeq[id] = seq.Add(1)
+				atomic.StoreInt64(&endSeq[id], seq.Add(1))
 				inflight.Add(-1)
 				completed.Add(1)
 			}
@@ -156,7 +165,7 @@ func runPoolCase(cs *PoolCase) *PoolObs {
 				swg.Add(1)
 				go func(s int) {
 					defer swg.Done()
-					for id := s; id < n; id += subs {
+					for id := s; id < pre; id += subs {
 						pool.Submit(task(id))
 					}
 				}(s)
@@ -165,9 +174,23 @@ func runPoolCase(cs *PoolCase) *PoolObs {
 			pool.Wait()
 			waitSeq = seq.Add(1)
 			waitReturned.Store(true)
+			if cs.LateTasks > 0 {
+				<-lateDone
+				pool.Wait() // the late tasks as well, before the round is over
+			}
 		}()
+		if cs.LateTasks > 0 {
+			go func() { // second submitter: starts only when the controller has seen the waiter blocked in Wait
+				defer close(lateDone)
+				<-lateGo
+				for id := pre; id < n; id++ {
+					pool.Submit(task(id))
+				}
+			}()
+		}
 		if cs.Gated {
 			step := 0
+			dwells := 0
 			for {
 				sn, ok := quiesce.Wait(self, quiesceBudget, &st)
 				if !ok {
@@ -189,6 +212,22 @@ func runPoolCase(cs *PoolCase) *PoolObs {
 				if fin {
 					break
 				}
+				if cs.DwellMs > 0 && dwells < 2 {
+					blocked := false
+					for id, s := range sn.States {
+						if s == "chan send" || (s == "select" && !baseline[id]) {
+							blocked = true
+						}
+					}
+					if blocked && int(completed.Load()-completedAtRoundStart) < n {
+						dwells++
+						time.Sleep(time.Duration(cs.DwellMs) * time.Millisecond)
+						if sn, ok = quiesce.Wait(self, quiesceBudget, &st); !ok {
+							o.Incon = "quiescence not reached after dwell"
+							return o
+						}
+					}
+				}
 				mu.Lock()
 				keys := make([]int, 0, len(parked))
 				for k := range parked {
@@ -208,10 +247,29 @@ func runPoolCase(cs *PoolCase) *PoolObs {
 				if blockedSend > 0 {
 					o.SubmitBlocks++
 				}
-				if waitReturned.Load() && unfinished > 0 {
+				if cs.LateTasks > 0 && !lateStarted {
+					// the waiter is blocked inside Wait now (its own tasks are parked): let the second goroutine submit
+					lateStarted = true
+					close(lateGo)
+					continue
+				}
+				if cs.LateTasks > 0 {
+					preUnfinished := 0
+					for id := 0; id < pre; id++ {
+						if plainDone(endSeq, id) == 0 {
+							preUnfinished++
+						}
+					}
+					if waitReturned.Load() && preUnfinished > 0 {
+						o.WaitEarly = append(o.WaitEarly, fmt.Sprintf("round %d: Wait returned while %d of the %d tasks submitted before it were still unfinished (tasks submitted later by another goroutine had completed)", round, preUnfinished, pre))
+					}
+				} else if waitReturned.Load() && unfinished > 0 {
 					o.WaitEarly = append(o.WaitEarly, fmt.Sprintf("round %d: Wait had returned with %d tasks unfinished (%d parked)", round, unfinished, len(keys)))
 				}
 				want := minInt(we, unfinished)
+				if cs.LateTasks > 0 {
+					want = 0
+				}
 				if len(keys) < want {
 					o.UnderUse = append(o.UnderUse, fmt.Sprintf("round %d point %d: %d tasks parked, want min(workers=%d, unfinished=%d)", round, step, len(keys), we, unfinished))
 				}
@@ -227,6 +285,8 @@ func runPoolCase(cs *PoolCase) *PoolObs {
 				}
 				var idx int
 				switch cs.Policy {
+				case "late-first": // keys are sorted: late tasks have the highest ids
+					idx = len(keys) - 1
 				case "last":
 					idx = len(keys) - 1
 				case "random":
@@ -260,7 +320,7 @@ func runPoolCase(cs *PoolCase) *PoolObs {
 			if cnt != 1 {
 				o.NotOnce = append(o.NotOnce, fmt.Sprintf("round %d task %d executed %d times", round, id, cnt))
 			}
-			if !cs.Lean && endSeq[id] > waitSeq {
+			if !cs.Lean && id < pre && endSeq[id] > waitSeq {
 				o.LateTasks = append(o.LateTasks, fmt.Sprintf("round %d task %d finished after Wait had returned", round, id))
 			}
 			o.TasksRun += int(cnt)
@@ -270,7 +330,7 @@ func runPoolCase(cs *PoolCase) *PoolObs {
 	o.Snapshots = st.Snapshots
 	pool.Close()
 	// goroutine census: everything that appeared since the baseline must be gone (worker exit is asynchronous: poll)
-	deadline := time.Now().Add(10 * time.Second)
+	deadline := time.Now().Add(3 * time.Second)
 	for {
 		sn := quiesce.Snap(self)
 		var left []string
@@ -403,8 +463,8 @@ func poolLoop(c *Cfg, n int, gen func(i int) *PoolCase, each func(i int, cs *Poo
 		}
 		cs := gen(i)
 		o := runAndJudgePool(c, prop, cs)
-		if o.Incon != "" || o.Deadlock {
-			c.Rep.Note(fmt.Sprintf("stopped shard after stuck/inconclusive pool case %d: %s", i, o.Dump))
+		if o.Incon != "" || o.Deadlock || len(o.Leaked) > 0 {
+			c.Rep.Note(fmt.Sprintf("stopped shard after stuck/inconclusive/leaking pool case %d: %s", i, o.Dump))
 			return
 		}
 		if each != nil {
@@ -467,8 +527,31 @@ func runC08(c *Cfg) {
 			}
 		}
 	}
+	// long sequential batches: strictly one at a time, in item order
+	for _, n := range []int{41, 64} {
+		it := make([]ItemScript, n)
+		for j := range it {
+			it[j].K = 1 + j%2
+		}
+		cases = append(cases, &BatchCase{Family: "sequential-order", N: n, C: 0, Budget: 2, Items: it, Shape: "results", Build: "builder", ExecStyle: "any", Gated: true, Policy: "first"})
+		cases = append(cases, &BatchCase{Family: "sequential-order", N: n, C: 0, Budget: 1, Items: it, Shape: "ints", Build: "compose", ExecStyle: "result", SleepUs: 5})
+	}
+	// dwell cases: the controller waits 150 ms at saturated quiescent points, so behaviour triggered by time
+	// (e.g. a submit that gives up blocking after a grace period) gets its chance to exceed the limit
+	for _, cc := range []int{1, 2, 3} {
+		for _, n := range []int{3*cc + 3, 4*cc + 8} {
+			it := make([]ItemScript, n)
+			for j := range it {
+				it[j].K = 1
+			}
+			cases = append(cases, &BatchCase{Family: "limit-dwell", N: n, C: cc, Budget: 1, Items: it, Shape: "results", Build: "builder", ExecStyle: "result", Gated: true, Policy: "first", DwellMs: 150})
+		}
+	}
 	gatedLoop(c, len(cases), func(i int) *BatchCase { return cases[i] }, func(i int, cs *BatchCase, o *BatchObs) {
 		r.Count("batch.runs", 1)
+		if cs.DwellMs > 0 {
+			r.Count("batch.runs.with_dwell", 1)
+		}
 		full := 0
 		lim := cs.C
 		if lim == 0 {
@@ -495,8 +578,14 @@ func runC08(c *Cfg) {
 			}
 		}
 	}
+	for _, w := range []int{-1, 1, 2, 3} {
+		pcs = append(pcs, &PoolCase{Family: "pool-limit-dwell", Workers: w, Tasks: 3*effWorkers(w) + 4, Submitters: 1 + (w+1)%2, Rounds: 1, Gated: true, Policy: "first", DwellMs: 150})
+	}
 	poolLoop(c, len(pcs), func(i int) *PoolCase { return pcs[i] }, func(i int, cs *PoolCase, o *PoolObs) {
 		r.Count("pool.runs", 1)
+		if cs.DwellMs > 0 {
+			r.Count("pool.runs.with_dwell", 1)
+		}
 		r.Nontrivial(fmt.Sprintf("p %d %d %d %s", cs.Workers, cs.Tasks, cs.Submitters, cs.Policy))
 	}, "C08")
 }
@@ -527,8 +616,20 @@ func runC12(c *Cfg) {
 			}
 		}
 	}
+	// a second goroutine submits while the first is inside Wait; its tasks complete first (out-of-order completion)
+	for w := 2; w <= 8; w++ {
+		for pre := 1; pre < w; pre++ {
+			if pre > 3 && pre != w-1 {
+				continue
+			}
+			pcs = append(pcs, &PoolCase{Family: "late-submitter", Workers: w, Tasks: pre, LateTasks: pre + 1 + (w+pre)%3, Submitters: 1, Rounds: 1, Gated: true, Policy: "late-first"})
+		}
+	}
 	poolLoop(c, len(pcs), func(i int) *PoolCase { return pcs[i] }, func(i int, cs *PoolCase, o *PoolObs) {
 		r.Count("gated.runs", 1)
+		if cs.LateTasks > 0 {
+			r.Count("gated.runs.late_submitter", 1)
+		}
 		r.HighWater("pool.goroutines_created", int64(o.PoolGs))
 		if cs.Tasks > 0 {
 			r.Nontrivial(fmt.Sprintf("g %d %d %d %d %s", cs.Workers, cs.Tasks, cs.Submitters, cs.Rounds, cs.Policy))
